@@ -4,11 +4,11 @@ import cplx_iv_ops as CI
 import c04_api
 
 LEVEL = "proof"
-LEAN_MODULES = ["Props.C04", "Props.C04pow", "Props.C04div"]
+LEAN_MODULES = ["Props.C04", "Props.C04pow", "Props.C04div", "Props.C04powneg"]
 ASSUMPTIONS = ["theorems cover add/sub/mul/mul_mpf/mul_int/square/neg/pos componentwise and z**n in the exact regime (Props/C04pow.lean: both components nonzero, "
                "n >= 3, n*(|e_a-e_b|+max bc) < 10000: complex_int_pow = (A+Bi)^n in Z[i], each component rounded once), and division z/w, 1/z, p/z (Props/C04div.lean: every component within 2^(2-prec) relative of the exact "
-               "component, hence in modulus; z/p correctly rounded); negative powers are bit-exactly "
-               "modelled and their accuracy clause is decided per case in exact arithmetic",
+               "component, hence in modulus; z/p correctly rounded), and negative powers z**(-m), m >= 3 in the exact regime, prec >= 3 (Props/C04powneg.lean: every "
+               "component within 6*2^-prec relative); all of these are also bit-exactly modelled and their accuracy clause decided per case in exact arithmetic",
                "the public routes (operators with mpc/mpf/int/float/complex operand mixes under the context rounding mode; fadd/fsub/fmul with "
                "prec=/rounding= keywords) are decided componentwise against correct rounding in exact rational arithmetic on a seeded sample (glue not proved)",
                "the final fallback of mpc_pow_int (mpc_exp/mpc_log) is not modelled: both sides answer NotImplementedError on that branch"]
